@@ -336,3 +336,231 @@ Proof.
     - rewrite frun_snoc. now apply fstep_eff_inv. }
   apply Inv.
 Qed.
+
+(* ------------------------------------------------------------------ history level: no promotion without a cause *)
+(* the fine events through which node w can possibly become active *)
+Definition cause_capable (w : who) (e : fev) : bool :=
+  match e with
+  | FCoarse (ESwLocal w' _) | FCoarse (ESwRemote w') | FCoarse (EPeerLost w') | FCoarse (EDeliver w' _) => who_eqb w w'
+  | FCoarse (EIf w' _ d) => who_eqb w w' && d
+  | FHb w' _ | FLost w' | FIf w' _ _ => who_eqb w w'
+  | _ => false
+  end.
+
+Lemma quiet_step v cs s e w :
+  thrs_of w s = [] -> n_st (node_of w (f_p s)) <> Init -> cause_capable w e = false ->
+  thrs_of w (fst (fstep v cs s e)) = [] /\
+  n_st (node_of w (f_p (fst (fstep v cs s e)))) = n_st (node_of w (f_p s)).
+Proof.
+  intros Hq Hi Hc. destruct e as [e|w' i|w'|w' k d|w' i].
+  - cbn [fstep]. destruct (step v cs (f_p s) e) as [p t] eqn:E. cbn [fst].
+    assert (Hp : p = fst (step v cs (f_p s) e)) by now rewrite E.
+    replace (node_of w (f_p (set_p s p))) with (node_of w p) by (destruct s; reflexivity).
+    replace (thrs_of w (set_p s p)) with (thrs_of w s) by (destruct s, w; reflexivity).
+    split; [exact Hq|]. rewrite Hp, step_node. unfold step_node_fn.
+    destruct e as [w'|w'|w' i|w' i|w'|w' k d|w' f|w'|w' i|w' i]; cbn [cause_capable] in Hc;
+      try reflexivity; try (rewrite Hc; reflexivity).
+    + destruct (who_eqb w w'); [|reflexivity].
+      destruct (start_facts (node_of w (f_p s))) as (_ & _ & Hs). rewrite Hs.
+      destruct (n_st (node_of w (f_p s))); congruence.
+    + destruct (who_eqb w w') eqn:Ew; [|reflexivity]. cbn [andb] in Hc. subst d.
+      destruct (if_facts v (cfg_of w cs) (node_of w (f_p s)) k false) as (_ & Hs & _). rewrite Hs.
+      now rewrite Bool.andb_false_r.
+    + destruct (who_eqb w w'); [|reflexivity]. destruct (nth_error _ _); reflexivity.
+  - cbn [cause_capable] in Hc. cbn [fstep]. destruct (nth_error _ _) as [m|]; [|auto]. cbn [fst].
+    destruct s as [p ta tb], w, w'; try discriminate Hc; destruct p; cbn in *; auto.
+  - cbn [cause_capable] in Hc. destruct s as [p ta tb], w, w'; try discriminate Hc; cbn in *; auto.
+  - cbn [cause_capable] in Hc. destruct s as [p ta tb], w, w'; try discriminate Hc; cbn in *; auto.
+  - destruct (who_eqb w w') eqn:Ew.
+    + apply who_eqb_true in Ew. subst w'. unfold fstep. rewrite Hq.
+      replace (nth_error (@nil thr) (i mod length (@nil thr))%nat) with (@None thr)
+        by (destruct (i mod length (@nil thr))%nat; reflexivity).
+      auto.
+    + assert (w = other w') by (destruct w, w'; try discriminate Ew; reflexivity). subst w.
+      destruct (nth_error (thrs_of w' s) (i mod length (thrs_of w' s))%nat) as [t|] eqn:H.
+      * destruct (fstep_micro v cs s w' i t H) as (_ & Hon & Hot & _). cbn zeta in *. now rewrite Hon, Hot.
+      * unfold fstep. rewrite H. auto.
+Qed.
+
+(* over ANY interleaving of critical sections: from a moment at which node w has no call in progress, as
+   long as none of the cause-capable events happens on w, its group keeps its state and stays quiescent *)
+Lemma quiet_run v cs w : forall es s,
+  thrs_of w s = [] -> n_st (node_of w (f_p s)) <> Init ->
+  forallb (fun e => negb (cause_capable w e)) es = true ->
+  thrs_of w (frun v cs s es) = [] /\
+  n_st (node_of w (f_p (frun v cs s es))) = n_st (node_of w (f_p s)).
+Proof.
+  induction es as [|e es IH]; intros s Hq Hi Hall; cbn [frun]; [auto|].
+  cbn [forallb] in Hall. apply andb_prop in Hall. destruct Hall as [H1 H2].
+  apply Bool.negb_true_iff in H1.
+  destruct (quiet_step v cs s e w Hq Hi H1) as [Q1 Q2].
+  destruct (IH (fst (fstep v cs s e)) Q1) as [R1 R2]; [now rewrite Q2 | exact H2 |].
+  split; [exact R1 | now rewrite R2, Q2].
+Qed.
+
+Lemma fine_no_self_promotion v cs w es1 es2 :
+  let s1 := frun v cs (finit cs) es1 in
+  thrs_of w s1 = [] ->
+  (n_st (node_of w (f_p s1)) = Standby \/ n_st (node_of w (f_p s1)) = StandbyAlone) ->
+  is_active (n_st (node_of w (f_p (frun v cs s1 es2)))) = true ->
+  existsb (cause_capable w) es2 = true.
+Proof.
+  intros s1 Hq Hst Hact.
+  destruct (existsb (cause_capable w) es2) eqn:E; [reflexivity|]. exfalso.
+  assert (Hall : forallb (fun e => negb (cause_capable w e)) es2 = true).
+  { clear -E. induction es2 as [|e r IH]; cbn in *; [reflexivity|].
+    apply Bool.orb_false_iff in E. destruct E as [E1 E2]. now rewrite E1, IH. }
+  destruct (quiet_run v cs w es2 s1 Hq) as [_ R]; [destruct Hst as [H|H]; rewrite H; discriminate | exact Hall |].
+  rewrite R in Hact. destruct Hst as [H|H]; rewrite H in Hact; discriminate Hact.
+Qed.
+
+(* ------------------------------------------------------------------ history level: effective priority *)
+(* the interface notifications of a fine history IN HANDLING ORDER: an atomic call counts when it runs, an
+   interleaved one when its first critical section (the m.mu section that updates ifDown) runs *)
+Definition log_here (s : fpair) (e : fev) : list ev :=
+  match e with
+  | FCoarse (EIf w k d) => [EIf w k d]
+  | FMicro w i =>
+      match nth_error (thrs_of w s) (i mod length (thrs_of w s))%nat with
+      | Some (TIf0 k d) => [EIf w k d]
+      | _ => []
+      end
+  | _ => []
+  end.
+Fixpoint flog (v : variant) (cs : cfgs) (s : fpair) (es : list fev) : list ev :=
+  match es with
+  | [] => []
+  | e :: r => log_here s e ++ flog v cs (fst (fstep v cs s e)) r
+  end.
+
+Lemma track_inv_same c w log n n' : same_track n n' -> track_inv c w log n -> track_inv c w log n'.
+Proof. intros (He & Hc & Hd) (I1 & I2 & I3). unfold track_inv. now rewrite He, Hc, Hd. Qed.
+
+Lemma coarse_same_track v cs p e w :
+  (forall k d, e <> EIf w k d) -> same_track (node_of w p) (step_node_fn v cs p e w).
+Proof.
+  intros Hne. unfold step_node_fn.
+  destruct e as [w'|w'|w' i|w' i|w'|w' k d|w' f|w'|w' i|w' i]; try (unfold same_track; auto; fail);
+    destruct (who_eqb w w') eqn:Ew; try (unfold same_track; auto; fail).
+  - apply start_facts.
+  - destruct (nth_error _ _); [apply hb_facts | unfold same_track; auto].
+  - apply peer_lost_facts.
+  - apply who_eqb_true in Ew. subst w'. exfalso. now apply (Hne k d).
+  - apply switchover_facts.
+  - apply switchover_facts.
+  - destruct (nth_error _ _); unfold same_track; auto.
+Qed.
+
+Lemma tstep_same_track v c n t :
+  not_adj t = true -> (forall k d, t <> TIf0 k d) ->
+  same_track n (fst (fst (tstep v c n t))).
+Proof.
+  intros Hna Hni. destruct t; try discriminate Hna; try (exfalso; eapply Hni; reflexivity).
+  all: destruct n as [st e p ps k cnt d]; unfold same_track;
+       cbn -[wins]; unfold peer_discovered, elect, hb_update, peer_lost, tracker_promote, transition_to;
+       cbn -[wins]; destruct st; cbn -[wins];
+       repeat match goal with |- context [if ?b then _ else _] => destruct b end; cbn; auto.
+Qed.
+
+Lemma tif0_same_track v c n k d :
+  fix_ia v = true ->
+  same_track (fst (handle_if v c n k d)) (fst (fst (tstep v c n (TIf0 k d)))).
+Proof.
+  intros Hf. destruct (if_facts v c n k d) as (_ & _ & Hun & Htr). cbn zeta in *.
+  cbn -[tracked track_update if_delta adjust_priority]. rewrite Hf.
+  destruct (tracked c k) eqn:T; cbn [negb].
+  - destruct (Htr eq_refl) as (Hc & Hd & He). cbn -[track_update if_delta adjust_priority].
+    unfold same_track. rewrite Hc, Hd, He. cbn. auto.
+  - rewrite (Hun eq_refl). cbn. unfold same_track; auto.
+Qed.
+
+Definition log_inv (cs : cfgs) (s : fpair) (log : list ev) : Prop :=
+  forall w, track_inv (cfg_of w cs) w log (node_of w (f_p s)) /\ forallb not_adj (thrs_of w s) = true.
+
+Lemma track_inv_other c w log n w' k d :
+  who_eqb w w' = false -> track_inv c w log n -> track_inv c w (log ++ [EIf w' k d]) n.
+Proof.
+  intros Ew. apply track_inv_frame; [|unfold same_track; auto].
+  intros k' d' E. inversion E; subst. rewrite who_eqb_refl in Ew. discriminate Ew.
+Qed.
+
+Lemma fstep_log_inv v cs s e log :
+  fix_if v = true -> fix_ia v = true -> cfg_small (fst cs) -> cfg_small (snd cs) ->
+  log_inv cs s log -> log_inv cs (fst (fstep v cs s e)) (log ++ log_here s e).
+Proof.
+  intros Hfi Hfa Sa Sb Inv.
+  assert (Hsm : forall w, cfg_small (cfg_of w cs)) by (intros [|]; assumption).
+  destruct v as [fh fi2 ff fs fa2]. cbn [fix_if fix_ia] in Hfi, Hfa. subst fi2 fa2.
+  set (v := mkVariant fh true ff fs true) in *.
+  assert (Hfi : fix_if v = true) by reflexivity. assert (Hfa : fix_ia v = true) by reflexivity.
+  destruct e as [e|w' i|w'|w' k d|w' i].
+  - intros w. cbn [fstep]. destruct (step v cs (f_p s) e) as [p t] eqn:E. cbn [fst].
+    assert (Hp : p = fst (step v cs (f_p s) e)) by now rewrite E.
+    replace (node_of w (f_p (set_p s p))) with (node_of w p) by (destruct s; reflexivity).
+    replace (thrs_of w (set_p s p)) with (thrs_of w s) by (destruct s, w; reflexivity).
+    destruct (Inv w) as [I1 I2]. split; [|exact I2]. rewrite Hp, step_node.
+    destruct e as [w2|w2|w2 i|w2 i|w2|w2 k d|w2 f|w2|w2 i|w2 i]; cbn [log_here]; rewrite ?app_nil_r;
+      try (eapply track_inv_same; [apply coarse_same_track; discriminate | exact I1]).
+    destruct (who_eqb w w2) eqn:Ew.
+    + apply who_eqb_true in Ew. subst w2. unfold step_node_fn. rewrite who_eqb_refl.
+      apply track_inv_if; auto.
+    + unfold step_node_fn. rewrite Ew. now apply track_inv_other.
+  - intros w. cbn [fstep log_here]. rewrite app_nil_r. destruct (nth_error _ _) as [m|]; [|apply Inv]. cbn [fst].
+    destruct (Inv w) as [I1 I2]. destruct s as [p ta tb], w, w'; destruct p; cbn in *; rewrite ?forallb_app; cbn;
+      rewrite ?I2; auto.
+  - intros w. cbn [log_here]. rewrite app_nil_r. destruct (Inv w) as [I1 I2].
+    destruct s as [p ta tb], w, w'; cbn in *; rewrite ?forallb_app; cbn; rewrite ?I2; auto.
+  - intros w. cbn [log_here]. rewrite app_nil_r. destruct (Inv w) as [I1 I2].
+    destruct s as [p ta tb], w, w'; cbn in *; rewrite ?forallb_app; cbn; rewrite ?I2; auto.
+  - cbn [log_here].
+    destruct (nth_error (thrs_of w' s) (i mod length (thrs_of w' s))%nat) as [t|] eqn:H.
+    2:{ rewrite app_nil_r. unfold fstep. rewrite H. exact Inv. }
+    destruct (fstep_micro v cs s w' i t H) as (Hn & Hon & Hot & Ht). cbn zeta in *.
+    destruct (Inv w') as [I1 I2].
+    rewrite (forallb_split not_adj _ _ t H) in I2.
+    apply andb_prop in I2. destruct I2 as [I2 I4]. apply andb_prop in I2. destruct I2 as [I2 I3].
+    assert (Hnext : match snd (tstep v (cfg_of w' cs) (node_of w' (f_p s)) t) with
+                    | Some t' => not_adj t' = true | None => True end).
+    { destruct t; try discriminate I3; cbn -[tracked track_update if_delta adjust_priority];
+        try (destruct (peer_discovered _ _ _)); try (destruct (elect _ _ _)); try (destruct (hb_update _ _ _ _ _ _));
+        try (destruct (peer_lost _) as [? [|? ?]]); try (destruct (tracker_promote _));
+        unfold v; cbn; repeat match goal with |- context [if ?b then _ else _] => destruct b end; cbn; auto. }
+    assert (Hthr : forallb not_adj (thrs_of w' (fst (fstep v cs s (FMicro w' i)))) = true).
+    { rewrite Ht. destruct (snd (tstep v (cfg_of w' cs) (node_of w' (f_p s)) t)) as [t'|].
+      - rewrite (replace_nth_split _ _ t t' H), forallb_app. cbn [forallb]. now rewrite I2, Hnext, I4.
+      - rewrite (remove_nth_split _ _ t H), forallb_app. now rewrite I2, I4. }
+    intros w. destruct (who_eqb w w') eqn:Ew.
+    + apply who_eqb_true in Ew. subst w'. split; [|exact Hthr]. rewrite Hn.
+      destruct t; try discriminate I3;
+        try (rewrite app_nil_r; eapply track_inv_same; [apply tstep_same_track; [reflexivity | discriminate] | exact I1]).
+      eapply track_inv_same; [apply tif0_same_track; exact Hfa|]. apply track_inv_if; auto.
+    + assert (w = other w') by (destruct w, w'; try discriminate Ew; reflexivity). subst w.
+      rewrite Hon, Hot. destruct (Inv (other w')) as [J1 J2]. split; [|exact J2].
+      destruct t; rewrite ?app_nil_r; try exact J1. now apply track_inv_other.
+Qed.
+
+Lemma frun_log_inv v cs :
+  fix_if v = true -> fix_ia v = true -> cfg_small (fst cs) -> cfg_small (snd cs) ->
+  forall es s log, log_inv cs s log -> log_inv cs (frun v cs s es) (log ++ flog v cs s es).
+Proof.
+  intros Hfi Hfa Sa Sb. induction es as [|e es IH]; intros s log Inv; cbn [frun flog].
+  - now rewrite app_nil_r.
+  - rewrite app_assoc. apply IH. now apply fstep_log_inv.
+Qed.
+
+(* under every interleaving of critical sections: the effective priority and the down count are what the
+   interface notifications, in the order in which they were handled, say *)
+Lemma fine_effective_priority v cs es w :
+  fix_if v = true -> fix_ia v = true -> cfg_small (fst cs) -> cfg_small (snd cs) ->
+  let n := node_of w (f_p (frun v cs (finit cs) es)) in
+  let log := flog v cs (finit cs) es in
+  n_eff n = spec_eff (cfg_of w cs) w log /\ n_cnt n = spec_cnt (cfg_of w cs) w log.
+Proof.
+  intros Hfi Hfa Sa Sb. cbn zeta.
+  assert (I0 : log_inv cs (finit cs) []).
+  { intros w'. split; [|destruct w'; reflexivity].
+    destruct w'; cbn [finit f_p node_of init_pair p_a p_b cfg_of]; apply track_inv_init;
+      [destruct Sa | destruct Sb]; lia. }
+  pose proof (frun_log_inv v cs Hfi Hfa Sa Sb es (finit cs) [] I0 w) as [(_ & H2 & H3) _].
+  cbn [app] in *. split; assumption.
+Qed.
